@@ -314,6 +314,10 @@ func (m Manager) IsCommitted(_ context.Context, change orm.DIDChangeLog) (bool, 
 	// get the latest from the didStore
 	_, meta, err := m.store.Resolve(change.DID(), &resolver.ResolveMetadata{AllowDeactivated: true})
 	if err != nil {
+		if errors.Is(err, resolver.ErrNotFound) {
+			// the DID was never published (e.g. the process stopped before the create was committed): not committed
+			return false, nil
+		}
 		return false, err
 	}
 	changeHash := hash.SHA256Sum([]byte(change.DIDDocumentVersion.Raw))
